@@ -318,3 +318,92 @@ def _inline_new_temps_once(prog) -> int:
                     removed += 0
             ast.fix_missing_locations(fn.node)
     return removed
+
+
+# ------------------------------------------------------------------------------------------------- spellings
+_MIRROR = {ast.Lt: ast.Gt, ast.Gt: ast.Lt, ast.LtE: ast.GtE, ast.GtE: ast.LtE}
+_NEGATE = {ast.In: ast.NotIn, ast.NotIn: ast.In, ast.Eq: ast.NotEq, ast.NotEq: ast.Eq, ast.Is: ast.IsNot, ast.IsNot: ast.Is,
+           ast.Lt: ast.GtE, ast.GtE: ast.Lt, ast.Gt: ast.LtE, ast.LtE: ast.Gt}
+
+
+def _txt(n) -> str:
+    return ast.unparse(n).replace(" ", "")
+
+
+def spelling_record(fn: ast.FunctionDef) -> dict:
+    """What the reference keeps per function: the texts of its ordered comparisons, augmented assignments and if-tests."""
+    cmps, augs, ifs = set(), set(), set()
+    for n in ast.walk(fn):
+        if isinstance(n, ast.Compare) and len(n.ops) == 1 and type(n.ops[0]) in _MIRROR:
+            cmps.add(_txt(n))
+        elif isinstance(n, ast.AugAssign):
+            augs.add(_txt(n))
+        elif isinstance(n, ast.If):
+            ifs.add(_txt(n.test))
+    return {"cmp": sorted(cmps), "aug": sorted(augs), "if": sorted(ifs)}
+
+
+def _negated(test: ast.AST) -> ast.AST | None:
+    if isinstance(test, ast.UnaryOp) and isinstance(test.op, ast.Not):
+        return test.operand
+    if isinstance(test, ast.Compare) and len(test.ops) == 1 and type(test.ops[0]) in _NEGATE:
+        return ast.Compare(left=test.left, ops=[_NEGATE[type(test.ops[0])]()], comparators=test.comparators)
+    return ast.UnaryOp(op=ast.Not(), operand=test)
+
+
+def restore_spellings(tree: ast.Module, relpath: str) -> int:
+    """Undo three purely notational edits where the reference tree has the other spelling of the *same* expression in the same function:
+    a mirrored comparison (`b > a` for `a < b`), an expanded augmented assignment (`x = x + e` for `x += e`) and an inverted if/else
+    (`if not c: B else: A` for `if c: A else: B`).  Each rewrite is an identity on the meaning of the code."""
+    ref = localnames.reference().get("__spellings__", {}).get(relpath)
+    if not ref:
+        return 0
+    n_done = 0
+    for q, fn in localnames.units(tree):
+        r = ref.get(q)
+        if not r:
+            continue
+        rc, ra, ri = set(r["cmp"]), set(r["aug"]), set(r["if"])
+
+        class T(ast.NodeTransformer):
+            def visit_Compare(self, n):
+                nonlocal n_done
+                self.generic_visit(n)
+                if len(n.ops) == 1 and type(n.ops[0]) in _MIRROR and _txt(n) not in rc:
+                    m = ast.Compare(left=n.comparators[0], ops=[_MIRROR[type(n.ops[0])]()], comparators=[n.left])
+                    if _txt(m) in rc:
+                        n_done += 1
+                        return ast.copy_location(m, n)
+                return n
+
+            def visit_Assign(self, n):
+                nonlocal n_done
+                self.generic_visit(n)
+                if len(n.targets) == 1 and isinstance(n.value, ast.BinOp) and isinstance(n.targets[0], (ast.Name, ast.Attribute, ast.Subscript)) \
+                        and ast.dump(n.value.left) == ast.dump(_as_load(n.targets[0])):
+                    a = ast.AugAssign(target=n.targets[0], op=n.value.op, value=n.value.right)
+                    if _txt(a) in ra and _txt(n) not in ra:
+                        n_done += 1
+                        return ast.copy_location(a, n)
+                return n
+
+            def visit_If(self, n):
+                nonlocal n_done
+                self.generic_visit(n)
+                if n.orelse and _txt(n.test) not in ri:
+                    neg = _negated(n.test)
+                    if neg is not None and _txt(neg) in ri:
+                        n_done += 1
+                        return ast.copy_location(ast.If(test=neg, body=n.orelse, orelse=n.body), n)
+                return n
+        T().visit(fn)
+        ast.fix_missing_locations(fn)
+    return n_done
+
+
+def _as_load(t):
+    t2 = copy.deepcopy(t)
+    for x in ast.walk(t2):
+        if hasattr(x, "ctx"):
+            x.ctx = ast.Load()
+    return t2
